@@ -186,28 +186,86 @@ def issue (cfg : Config) (host : Bytes) (now : Int) (serial : Nat) : Cert :=
 def stripBrackets (h : Bytes) : Bytes :=
   if h.length ≥ 3 && h.head? == some lbr && h.getLast? == some rbr then (h.drop 1).dropLast else h
 
-/-- Name comparison of `VerifyHostname` for one SAN: ASCII case-insensitive equality; the empty
-name and "." never match. (Wildcards and trailing-dot tolerance are not modelled: they only
-widen the match, and this code never issues a wildcard.) -/
-def matchName (san host : Bytes) : Bool :=
-  !san.isEmpty && san != [dot] && !host.isEmpty && host != [dot] && toLower san == toLower host
+/-! ### `x509.Certificate.VerifyHostname` (Go 1.23 `crypto/x509/verify.go`), statement by statement -/
 
-def matchesHost (c : Cert) (host : Bytes) : Bool :=
-  match parseIP (stripBrackets host) with
+def star : UInt8 := 42
+def hyphen : UInt8 := 45
+def underscore : UInt8 := 95
+
+def isAlnum (c : UInt8) : Bool := (97 ≤ c && c ≤ 122) || isDigit c || (65 ≤ c && c ≤ 90)
+
+/-- `strings.TrimSuffix(h, ".")`: at most one trailing dot is removed. -/
+def trimDot (h : Bytes) : Bytes := if h.getLast? = some dot then h.dropLast else h
+
+/-- One label of `validHostname`: not empty; letters, digits, `_` anywhere, `-` except in front.
+(A byte ≥ 0x80 belongs to a rune outside these ranges, so the rune loop of the Go code and this byte
+loop agree on every byte string.) -/
+def validLabel : Bytes → Bool
+  | [] => false
+  | c :: rest => (isAlnum c || c == underscore) && rest.all (fun d => isAlnum d || d == hyphen || d == underscore)
+
+/-- `validHostname(host, isPattern)`: the input form drops one trailing dot first; the pattern form
+accepts `*` as the complete left-most label. -/
+def validHostname (host : Bytes) (isPattern : Bool) : Bool :=
+  let host := if isPattern then host else trimDot host
+  if host.isEmpty then false
+  else if host == [star] then false
+  else match split host dot with
+    | [] => true
+    | p :: ps => ((isPattern && p == [star]) || validLabel p) && ps.all validLabel
+
+/-- `matchExactly`. -/
+def matchExactly (a b : Bytes) : Bool :=
+  if a.isEmpty || a == [dot] || b.isEmpty || b == [dot] then false else toLower a == toLower b
+
+/-- `matchHostnames(pattern, host)`: label-wise equality after lower-casing and dropping one trailing
+dot of the host; a left-most `*` label of the pattern matches any one label. -/
+def matchHostnames (pattern host : Bytes) : Bool :=
+  let pattern := toLower pattern
+  let host := toLower (trimDot host)
+  if pattern.isEmpty || host.isEmpty then false else
+  let pp := split pattern dot
+  let hp := split host dot
+  if pp.length ≠ hp.length then false else
+  match pp, hp with
+  | p :: ps, h :: hs => (p == [star] || p == h) && ps == hs
+  | _, _ => true
+
+/-- The DNS-name branch of `VerifyHostname` for one SAN entry `san`; `cand = toLowerCaseASCII(h)`. -/
+def matchDNS (san cand : Bytes) : Bool :=
+  if validHostname cand false && validHostname san true then matchHostnames san cand else matchExactly san cand
+
+/-- `c.VerifyHostname(h)`: a host that parses as an IP address (optionally in `[ ]`) is compared with
+the IP SANs only (16-byte form, as `net.IP.Equal`); any other host with the DNS SANs only. -/
+def verifyHostname (c : Cert) (h : Bytes) : Bool :=
+  match parseIP (stripBrackets h) with
   | some ip => c.ips.contains ip
-  | none => c.names.any (fun n => matchName n host)
+  | none => c.names.any (fun n => matchDNS n (toLower h))
 
 def inWindow (c : Cert) (now : Int) : Bool := decide (c.notBefore ≤ now) && decide (now ≤ c.notAfter)
+
+/-- The error classes of `Certificate.Verify`, in the order the Go code tests them:
+`isValid` (NotBefore/NotAfter against the current time) first, then `VerifyHostname` (skipped for an
+empty `DNSName`), then chain building to the roots. -/
+inductive VerifyErr where
+  | ok | expired | hostname | authority
+  deriving DecidableEq, Repr
+
+def verifyErr (c : Cert) (host : Bytes) (now : Int) : VerifyErr :=
+  if !inWindow c now then .expired
+  else if !(host.isEmpty || verifyHostname c host) then .hostname
+  else if !c.signedByCA then .authority
+  else .ok
 
 /-- `Leaf.Verify(x509.VerifyOptions{DNSName: host, Roots: c.roots})` at time `now`:
 the host check is skipped for an empty `DNSName` (as `x509.Verify` does). -/
 def goVerify (c : Cert) (host : Bytes) (now : Int) : Bool :=
-  (host.isEmpty || matchesHost c host) && inWindow c now && c.signedByCA
+  (host.isEmpty || verifyHostname c host) && inWindow c now && c.signedByCA
 
 /-- What the property asks of a presented certificate: it names the (non-empty) host, the time
 is inside its window, it chains to the CA. -/
 def verifiesFor (c : Cert) (host : Bytes) (now : Int) : Bool :=
-  !host.isEmpty && matchesHost c host && inWindow c now && c.signedByCA
+  !host.isEmpty && verifyHostname c host && inWindow c now && c.signedByCA
 
 /-! ### the cache and `Config.cert` -/
 
@@ -311,5 +369,63 @@ def stepThread (cfg : Config) (sys : Sys) (i : Nat) (now : Int) : Sys :=
 def runSched (cfg : Config) : List (Nat × Int) → Sys → Sys
   | [], sys => sys
   | (i, t) :: rest, sys => runSched cfg rest (stepThread cfg sys i t)
+
+/-! ### concurrency, fine grain: every lock boundary and every clock read is its own step
+
+`Config.cert` reads the clock three times (inside `Leaf.Verify`, and twice in the template:
+`NotBefore: time.Now().Add(-validity)`, `NotAfter: time.Now().Add(validity)`) and takes the mutex
+twice. Between any two of these another requester may run and time may pass; in particular a cached
+certificate may expire between the read-locked lookup and its `Verify`, between `Verify` and the
+return, and another requester may replace the entry while this one still holds the old pointer. -/
+
+inductive FPc where
+  | start (hostname : Bytes)                        -- before `c.certmu.RLock()`
+  | looked (host : Bytes) (c : Cert)                -- hit, lock released, before `tlsc.Leaf.Verify`
+  | miss (host : Bytes)                             -- before `rand.Int` / the first `time.Now()`
+  | tmplNB (host : Bytes) (serial : Nat) (nb : Int) -- `NotBefore` fixed, before the second `time.Now()`
+  | signed (host : Bytes) (c : Cert) (t : Int)      -- leaf created at `t`, before `c.certmu.Lock()`
+  | ret (o : Outcome) (tchk : Int)                  -- verified / created at `tchk`, before `return`
+  | done (o : Outcome) (tchk tret : Int)            -- returned at `tret`
+  deriving DecidableEq, Repr
+
+structure FSys where
+  st : State
+  clock : Int
+  threads : List FPc
+  deriving Repr
+
+/-- The map insert under the write lock (the serial was drawn earlier). -/
+def insertCert (s : State) (host : Bytes) (c : Cert) : State := { s with cache := (host, c) :: s.cache }
+
+/-- Thread `i` takes its next step after `delta` ms have passed. -/
+def stepF (cfg : Config) (sys : FSys) (i : Nat) (delta : Nat) : FSys :=
+  let now := sys.clock + (delta : Int)
+  let sys : FSys := { sys with clock := now }
+  match sys.threads[i]? with
+  | none => sys
+  | some (.start hostname) =>
+    let host := normalise hostname
+    if host.isEmpty then { sys with threads := sys.threads.set i (.ret .refused now) }
+    else match sys.st.cache.lookup host with
+      | some c => { sys with threads := sys.threads.set i (.looked host c) }
+      | none => { sys with threads := sys.threads.set i (.miss host) }
+  | some (.looked host c) =>
+    if goVerify c host now then { sys with threads := sys.threads.set i (.ret (.served c false) now) }
+    else { sys with threads := sys.threads.set i (.miss host) }
+  | some (.miss host) =>
+    { sys with st := { sys.st with next := sys.st.next + 1 },
+               threads := sys.threads.set i (.tmplNB host sys.st.next (floorSec (now - cfg.validity))) }
+  | some (.tmplNB host serial nb) =>
+    let c : Cert := { serial := serial, names := (sanFor host).1, ips := (sanFor host).2, notBefore := nb,
+                      notAfter := floorSec (now + cfg.validity), org := cfg.org, signedByCA := true, keyHeld := true }
+    { sys with threads := sys.threads.set i (.signed host c now) }
+  | some (.signed host c t) =>
+    { sys with st := insertCert sys.st host c, threads := sys.threads.set i (.ret (.served c true) t) }
+  | some (.ret o t) => { sys with threads := sys.threads.set i (.done o t now) }
+  | some (.done _ _ _) => sys
+
+def runF (cfg : Config) : List (Nat × Nat) → FSys → FSys
+  | [], sys => sys
+  | (i, d) :: rest, sys => runF cfg rest (stepF cfg sys i d)
 
 end Martian.Mitm
